@@ -44,6 +44,18 @@ func (svm *StubVM) VerifKilling(uuid string) bool {
 	return svm.killing[uuid]
 }
 
+// VerifClearKilling forgets an earlier "crunch-run --kill" for uuid unless a
+// live process for uuid exists on this VM (the stub keeps the flag for
+// ever, which would make every later crunch-run for the same container on
+// this VM exit early).
+func (svm *StubVM) VerifClearKilling(uuid string) {
+	svm.Lock()
+	defer svm.Unlock()
+	if p, ok := svm.running[uuid]; !ok || p.exited {
+		delete(svm.killing, uuid)
+	}
+}
+
 // VerifVMs returns the VMs that currently exist (i.e. were created and
 // not yet successfully destroyed). It does not consume the Instances()
 // rate-limit allowance.
